@@ -48,7 +48,7 @@ def make_main(prog):
         k = sk.new_kernel()
         k.fs_makedirs(ROOT + b"/sub")
         k.cuts = prog.get("cuts") or None
-        now = lambda: tm.time() - core.BASE_TIME  # noqa: E731
+        now = lambda: s.now  # noqa: E731
         buf = W.inotify_buffer.InotifyBuffer(ROOT, recursive=True)
         ino = buf._inotify
         fd = ino.fd
